@@ -332,4 +332,38 @@ theorem unitStruct_pinned :
       .error (.errCtx "serialize_unit_struct is not supported" [("data_type", "Int32"), ("field", "$.item")]) := by
   decide +kernel
 
+/-! ### non-vacuity of the read-back -/
+
+def wRead : List SVal := [recOf [("a", i32 1), ("s", .str "é")], recOf [("a", .none), ("s", .str "")]]
+def wReadFields : List Field := [.mk "a" .int32 true [], .mk "s" .largeUtf8 false []]
+
+set_option maxRecDepth 1000000 in
+theorem wRead_trace : fromSamples .fixed {} wRead = .ok wReadFields := by decide +kernel
+
+set_option maxRecDepth 1000000 in
+theorem wRead_build : (toMarrow {} wReadFields wRead).isOk = true := by decide +kernel
+
+/-- non-vacuity of `C06_closure_readback`: a collection with a null, a two-byte UTF-8 string and an empty string; tracing
+succeeds (`wRead_trace`), `to_marrow` accepts it (`wRead_build`), every hypothesis is discharged — reading the built arrays
+back returns the documented values of the samples, unconditionally -/
+example : ∀ arrs, toMarrow {} wReadFields wRead = .ok arrs →
+    ∃ cols : List (String × List LVal), cols.length = arrs.length ∧
+      (∀ (i : Nat) (hi : i < wRead.length),
+        interpRow {} wReadFields wRead[i] = .ok (.struct (LFields.ofList (cols.map fun c => (c.1, c.2.getD i .null))))) ∧
+      ∀ (j : Nat) (hj : j < arrs.length) (i : Nat), i < wRead.length →
+        ∃ lv, (cols[j]?.map (·.2[i]?)) = some (some lv) ∧
+          Read.readAny Read.Fixes.all arrs[j] i = .ok (Read.toD arrs[j] lv) := by
+  intro arrs hm
+  refine C06_closure_readback {} {} rfl wRead wReadFields arrs wRead_trace rfl rfl ?_ ?_ ?_ ?_ hm
+  · decide
+  · intro root0 h0
+    rw [show newRoot wReadFields = .ok (.struct "$" 0 none
+      (.cons (.leaf "$.a" (.int .i32) (some []) []) ⟨"a", true, []⟩
+        (.cons (.bytes "$.s" .largeUtf8 none [0] []) ⟨"s", false, []⟩ .nil)) [none, none] 0 [false, false]) from by decide] at h0
+    cases h0
+    simp [Safe, SafeL]
+  · constructor <;> (intros; rename_i h; cases h)
+  · simp [wRead, recOf, i32, SFields.ofList, Lemmas.C03.SValOK, Lemmas.C03.SFieldsOK, Lemmas.C03.ScalarOK,
+      IntTy.inRange, IntTy.min, IntTy.max]
+
 end SaModel.Props.C06
